@@ -119,6 +119,16 @@ def run_dag_case(v, case, rng, scratch, keys):
         v.bad(exc_sig(e, "refused-construct"), f"valid DAG refused: {exc_msg(e)}", case=daggen.describe(case))
         return
     v.hit(daggen.classes(case))
+    # every third case: a copy whose OUTPUTS live in a scope of their own (the inputs do not) - a supplied intermediate is then
+    # spelled as a nested dict {"calc": {name: value}} for a scope that holds no root argument
+    scoped_p = None
+    if rng.random() < 0.34:
+        try:
+            with quiet():
+                scoped_p = pipeline.copy()
+                scoped_p.update_scope("calc", inputs=None, outputs="*")
+        except Exception:  # noqa: BLE001  (rewrites are C10's subject)
+            scoped_p = None
     subsets = [c for r in range(1, len(outs) + 1) for c in itertools.combinations(outs, r)]
     if len(outs) > 4:
         subsets = [tuple(sorted(rng.sample(outs, rng.randint(1, min(3, len(outs)))))) for _ in range(10)]
@@ -182,6 +192,39 @@ def run_dag_case(v, case, rng, scratch, keys):
                     v.count("subpipelines_mutated_afterwards")
                 except Exception:  # noqa: BLE001
                     pass
+            if scoped_p is not None and cut and label != "member-of-tuple":
+                def nest(K):
+                    d = {k: x for k, x in K.items() if k in case["roots"]}
+                    inner = {k: x for k, x in K.items() if k not in case["roots"]}
+                    if inner:
+                        d["calc"] = inner
+                    return d
+                v.count("cuts_spelled_as_nested_scope_dict")
+                for o in S:
+                    Ko = {k: x for k, x in I.items() if k in ref[o]["used"]}
+                    if not any(k not in case["roots"] for k in Ko):
+                        continue
+                    try:
+                        with quiet():
+                            got = scoped_p(f"calc.{o}", **nest(Ko))
+                        if got != daggen.ref_eval(case, o, Ko)["value"]:
+                            v.bad(f"value/nested-scope-dict/call/{label}", f"calc.{o}: got {got!r:.200}", **w)
+                    except Exception as e:  # noqa: BLE001
+                        v.bad(exc_sig(e, f"nested-scope-dict-call-refused/{label}"), f"call of calc.{o} with the supplied intermediate spelled "
+                              f"{{'calc': {{...}}}} raised {exc_msg(e)}", **w)
+                for how in ["output_names", "auto_subpipeline"]:
+                    kw = {"output_names": {f"calc.{o}" for o in S}}
+                    if how == "auto_subpipeline":
+                        kw["auto_subpipeline"] = True
+                    try:
+                        with quiet():
+                            res = scoped_p.map(nest(I), parallel=False, storage="dict", **kw)
+                        for o in S:
+                            if f"calc.{o}" not in res or res[f"calc.{o}"].output != ref[o]["value"]:
+                                v.bad(f"value/nested-scope-dict/map-{how}/{label}", f"calc.{o} differs from the reference", **w)
+                    except Exception as e:  # noqa: BLE001
+                        v.bad(exc_sig(e, f"nested-scope-dict-map-{how}-refused/{label}"), f"map with the supplied intermediate spelled {{'calc': {{...}}}} "
+                              f"raised {exc_msg(e)}", **w)
             # (b)/(c) map with output_names / auto_subpipeline
             for how in ["output_names", "auto_subpipeline"]:
                 if label == "member-of-tuple":
